@@ -322,6 +322,12 @@ func (g *Gen) verifyFunc(fn *ssa.Function, fc *FuncContract) (obs []*Obligation,
 			c.obs = append(c.obs, ob)
 		}
 	}
+	for _, a := range fc.Assumes {
+		if !c.anchorsHit["assume:"+a.Anchor] {
+			c.obs = append(c.obs, &Obligation{Name: shortName(fn.String()) + "#bind:" + normAnchor(a.Anchor), Fn: fn.String(), Kind: "bind", Result: "error",
+				Output: "contract anchor not found in the current code: " + a.Anchor})
+		}
+	}
 	for ord := range fc.Loops {
 		found := false
 		for _, li := range c.loops {
